@@ -31,15 +31,28 @@ pub fn vx_buf_len(s: &String) -> (r: usize)
     s.len()
 }
 
-/// String::insert at a byte index that is a character boundary (N11)
-#[verifier::external_body]
-pub fn vx_string_insert(s: &mut String, idx: usize, c: char)
-    requires
-        exists|k: int| 0 <= k <= old(s)@.len() && #[trigger] byte_len(old(s)@.take(k)) == idx,
-    ensures
-        forall|k: int| 0 <= k <= old(s)@.len() && #[trigger] byte_len(old(s)@.take(k)) == idx ==> final(s)@ == old(s)@.take(k).push(c) + old(s)@.skip(k),
-{
-    s.insert(idx, c)
+/// String editing with byte indices (N11: `.insert(i, c)` on a String is renamed to `.vx_insert_char(i, c)`)
+pub trait VxStringExt {
+    spec fn vx_chars(&self) -> Seq<char>;
+
+    /// String::insert at a byte index that is a character boundary
+    fn vx_insert_char(&mut self, idx: usize, c: char)
+        requires
+            exists|k: int| 0 <= k <= old(self).vx_chars().len() && #[trigger] byte_len(old(self).vx_chars().take(k)) == idx,
+        ensures
+            forall|k: int| 0 <= k <= old(self).vx_chars().len() && #[trigger] byte_len(old(self).vx_chars().take(k)) == idx ==> final(self).vx_chars() == old(self).vx_chars().take(k).push(c) + old(self).vx_chars().skip(k),
+    ;
+}
+
+impl VxStringExt for String {
+    open spec fn vx_chars(&self) -> Seq<char> {
+        self@
+    }
+
+    #[verifier::external_body]
+    fn vx_insert_char(&mut self, idx: usize, c: char) {
+        self.insert(idx, c)
+    }
 }
 
 /// u32::to_string (N11)
